@@ -662,3 +662,42 @@ pub fn set_drop_bomb(id: u64) {
 pub fn drop_bomb_armed() -> bool {
     DROP_BOMB.with(|b| b.get() != 0)
 }
+
+// ------------------------------------------------------------------------------------------
+// hang watchdog: a call that never returns (e.g. a probe loop on a corrupted table) must not
+// stall the shard until the driver's wall-clock limit
+// ------------------------------------------------------------------------------------------
+
+pub static HEARTBEAT: std::sync::atomic::AtomicU64 = std::sync::atomic::AtomicU64::new(0);
+
+#[inline]
+pub fn heartbeat() {
+    HEARTBEAT.fetch_add(1, std::sync::atomic::Ordering::Relaxed);
+}
+
+pub const HANG_EXIT: i32 = 86;
+
+/// Exit with status 86 if no monitor step / case completes for `secs` seconds.
+pub fn spawn_hang_watchdog(secs: u64) {
+    if secs == 0 || cfg!(miri) {
+        return;
+    }
+    std::thread::spawn(move || {
+        let mut last = HEARTBEAT.load(std::sync::atomic::Ordering::Relaxed);
+        let mut idle = 0u64;
+        loop {
+            std::thread::sleep(std::time::Duration::from_secs(1));
+            let now = HEARTBEAT.load(std::sync::atomic::Ordering::Relaxed);
+            if now == last {
+                idle += 1;
+                if idle >= secs {
+                    eprintln!("FATAL hang: no call completed for {secs} s (a call into the map never returned)");
+                    std::process::exit(HANG_EXIT);
+                }
+            } else {
+                idle = 0;
+                last = now;
+            }
+        }
+    });
+}
